@@ -1,7 +1,7 @@
 (** C13 — automata conversions and combinators compute the intended regular languages.
     Statements only; proofs live in C13/Proofs*.v. *)
 From Coq Require Import ZArith List Bool.
-From Algo.C13 Require Import Model Spec Lemmas ProofsNFA ProofsDFA ProofsSM ProofsUnion ProofsStar ProofsSubset ProofsSubsetTerm ProofsElim ProofsMinQuot ProofsMinRound ProofsReindex ProofsCombine ProofsMinimal ProofsMinTerm.
+From Algo.C13 Require Import Model Spec Lemmas ProofsNFA ProofsDFA ProofsSM ProofsUnion ProofsStar ProofsSubset ProofsSubsetTerm ProofsElim ProofsMinQuot ProofsMinRound ProofsReindex ProofsCombine ProofsMinimal ProofsMinTerm ProofsIso.
 Import ListNotations.
 Open Scope Z_scope.
 
@@ -83,6 +83,13 @@ Theorem C13_combine_dfa : forall (dl : list dfa), Forall (fun d => dwf d /\ dfa_
         exists fk, nth_error fm k = Some fk /\ (In (drun R (dstart R) w) fk <-> daccept d w = true).
 Proof. exact combine_ok. Qed.
 
+(** Isomorphic (after the repair of D13b) is true for a DFA and its copy renamed by any map that
+    is injective on its states — onto any id set, contiguous or not. *)
+Theorem C13_iso_dfa : forall (d : dfa) (f : Z -> Z), dwf d -> NoDup (dfinal d) ->
+  (forall x y, In x (dstates d) -> In y (dstates d) -> f x = f y -> x = y) ->
+  disomorphic d (dpermute d f) = true.
+Proof. exact disomorphic_renamed. Qed.
+
 (** Union (receiver first) accepts exactly the union of the operand languages. *)
 Theorem C13_union : forall (ns : list nfa) (w : list Z), Forall nwf ns -> word_ok w ->
   exists b, naccept (nunion ns) w = Ok b /\ (b = true <-> exists n, In n ns /\ naccept n w = Ok true).
@@ -142,6 +149,7 @@ Print Assumptions C13_minimize.
 Print Assumptions C13_minimal.
 Print Assumptions C13_reindex_states.
 Print Assumptions C13_combine_dfa.
+Print Assumptions C13_iso_dfa.
 Print Assumptions C13_union.
 Print Assumptions C13_star.
 Print Assumptions C13_concat_refuted.
